@@ -806,6 +806,129 @@ def normalize_stats(cases, impl_lines, H):
                 if apart:
                     H['normalize:adjacent-text-left-in-document'] = H.get('normalize:adjacent-text-left-in-document', 0) + 1
 
+# ------------------------------------------------------------------ the read-only maps of a document type (ops ES ESI ER TS TSI TR)
+# Model/DomReadOnly.v (step_ro), property C13 "no modification allowed".  Own generator and own random stream.  Documents
+# WITH a DTD that declares entities (internal, external unparsed) and notations, with a document type that declares none,
+# and WITHOUT a document type; several documents per history so that the argument of set_named_item can come from the
+# map of ANOTHER document; receivers: the Document (doc_type()) and the DocumentType node itself (also after remove_child
+# took it out of its document); names that are / are not in the map; item(i) inside / outside the map.
+RO_DOCS = ['<!DOCTYPE r [<!ENTITY e "v"><!ENTITY f "w&e;"><!NOTATION n SYSTEM "s"><!ENTITY u SYSTEM "x" NDATA n>]><r k="v">a&e;<b/>c</r>',
+           '<!DOCTYPE q [<!ENTITY g "z"><!ENTITY e "other"><!NOTATION m PUBLIC "p"><!NOTATION n PUBLIC "p2" "s2">]><!--h--><q>&g;</q>',
+           '<!DOCTYPE r [<!ELEMENT r ANY>]><r/>',
+           '<!DOCTYPE r><r>t</r>',
+           '<r><a/>t</r>',
+           '<q/>']
+RO_NAMES = ['e', 'f', 'g', 'u', 'n', 'm', 'zz', '', 'r', 'amp', 'E']
+RO_OPS = ('ES', 'ESI', 'ER', 'TS', 'TSI', 'TR')
+
+def ro_maps(line):
+    """document type handle -> (names in entities(), names in notations()), from the description in record 0"""
+    m = {}
+    for w in init_desc(line).split(' '):
+        f = w.split(':')
+        if w.startswith('I') and f[2] == 'dt':
+            m.setdefault(int(f[0][1:]), [[], []])[0] = [] if f[9] == '~' else [dec(e).lstrip('\0') for e in f[9].split('.')]
+        elif w.startswith('T'):
+            m.setdefault(int(f[0][1:]), [[], []])[1] = [] if f[1] == '~' else [dec(e) for e in f[1].split('.')]
+    return m
+
+def gen_op_ro(ch, rng, run, ndocs):
+    """one op of a read-only-map history, aimed at the state of the chooser's dump (`ch.ro_maps`: see ro_maps)"""
+    N = ch.rec.nodes
+    maps = getattr(ch, 'ro_maps', {})
+    def names_of(h, which):
+        """names in the map of the document type that handle h gives access to"""
+        if h in N and N[h].kind == 'doc':
+            h = next((c for c in N[h].c if c in N and N[c].kind == 'dt'), None)
+        return maps.get(h, [[], []])[which] if h in N and N[h].kind == 'dt' else []
+    docs = [h for h in ch.hs if N[h].kind == 'doc']
+    dts = [h for h in ch.hs if N[h].kind == 'dt']
+    def recv():
+        y = rng.random()
+        if y < 0.45 and docs: return rng.choice(docs)
+        if y < 0.88 and dts: return rng.choice(dts)
+        return ch.any()
+    x = rng.random()
+    if x < 0.62:
+        k = rng.choice(['ES', 'ES', 'ESI', 'ER', 'ER', 'TS', 'TSI', 'TR'])
+        r = recv()
+        if k in ('ER', 'TR'):
+            return (k, r, rng.choice(RO_NAMES))
+        src = r if rng.random() < 0.35 else recv()
+        run.count('ro:argument-from-' + ('the-same-document' if ch.docmap.get(src) == ch.docmap.get(r) else 'another-document'))
+        have = names_of(src, 0 if k[0] == 'E' else 1)
+        if k in ('ES', 'TS'):
+            return (k, r, src, rng.choice(have) if have and rng.random() < 0.7 else rng.choice(RO_NAMES))
+        return (k, r, src, rng.randrange(len(have)) if have and rng.random() < 0.7 else rng.choice([0, 0, 1, 2, 3, 9]))
+    if x < 0.74 and dts:
+        d = rng.choice(dts)
+        pa = N[d].p
+        if pa is not None and pa in N:
+            run.count('ro:remove-doctype'); return ('RM', pa, d)
+        run.count('ro:append-removed-doctype'); return ('AC', rng.choice(docs), d)
+    return gen_op(ch, rng, run, ndocs)
+
+RO_FIXED = [
+    # every op on the document and on the document type node; by name / by index; present / absent; both maps; the argument
+    # from the other document; then the document type is removed: the document has no maps, the node keeps them
+    ([RO_DOCS[0], RO_DOCS[1], RO_DOCS[4]],
+     [('ES', 0, 0, 'e'), ('ES', 0, 1, 'u'), ('ES', 0, 7, 'g'), ('ES', 0, 7, 'f'), ('ES', 7, 0, 'e'), ('ESI', 0, 0, 2), ('ESI', 0, 0, 3), ('ESI', 1, 8, 1),
+      ('ER', 0, 'e'), ('ER', 0, 'zz'), ('ER', 1, ''), ('TS', 0, 0, 'n'), ('TS', 0, 7, 'm'), ('TS', 0, 7, 'e'), ('TSI', 8, 0, 0), ('TSI', 0, 7, 2),
+      ('TR', 0, 'n'), ('TR', 8, 'zz'), ('ES', 12, 0, 'e'), ('ER', 12, 'e'), ('TR', 13, 'n'), ('ES', 0, 12, 'e'), ('ER', 2, 'e'), ('TS', 3, 0, 'n'),
+      ('RM', 0, 1), ('ER', 0, 'e'), ('TR', 0, 'n'), ('ES', 0, 1, 'e'), ('ER', 1, 'e'), ('ES', 1, 1, 'f'), ('TS', 1, 7, 'm'), ('TSI', 7, 1, 0)]),
+    # document types that declare nothing
+    ([RO_DOCS[2], RO_DOCS[3]],
+     [('ER', 0, 'e'), ('TR', 0, 'n'), ('ES', 0, 0, 'e'), ('ESI', 0, 0, 0), ('TS', 1, 1, 'n'), ('TSI', 1, 4, 0), ('ER', 3, 'r'), ('TR', 4, '')]),
+]
+
+def readonly_histories(rng, count, maxlen, chunk=5):
+    """-> (list of (docs, ops, view), histogram): the fixed histories in both views + `count` seeded histories grown in
+    lock-step with the implementation"""
+    st = Stats()
+    out = [(d, o, v) for d, o in RO_FIXED for v in ('r', 'm')]
+    hist = []
+    for _ in range(count):
+        nd = rng.choice([1, 2, 2, 3])
+        docs = [rng.choice(RO_DOCS[:2]) if rng.random() < 0.6 else rng.choice(RO_DOCS)]
+        while len(docs) < nd:
+            docs.append(docs[0] if rng.random() < 0.25 else rng.choice(RO_DOCS))
+        hist.append({'docs': docs, 'ops': [], 'len': rng.randint(2, maxlen), 'view': 'm' if rng.random() < 0.25 else 'r'})
+    for rnd in range((maxlen + chunk - 1) // chunk + 1):
+        live = [h for h in hist if len(h['ops']) < h['len']]
+        if not live: break
+        lines = run_impl([mkcase(h['docs'], h['ops'], h['view']) for h in live])
+        for h, line in zip(live, lines):
+            recs = parse_line(line)
+            if not recs or recs[-1].bad or recs[-1].skipped:
+                h['len'] = len(h['ops']); continue
+            dm = doc_map(line)
+            cnt = [len(h['docs']) - 1]
+            for op, r in zip(h['ops'], recs[1:]):
+                if op[0][0] == 'C' and r.result.startswith('ok:') and op[0] != 'CF':
+                    nh = int(r.result[3:])
+                    if op[1] in dm: dm[nh] = dm[op[1]]
+                dm = grow_docmap(dm, r, cnt)
+            ch = Chooser(recs[-1], rng, dm)
+            ch.ro_maps = ro_maps(line)
+            for _ in range(min(chunk, h['len'] - len(h['ops']))):
+                h['ops'].append(gen_op_ro(ch, rng, st, len(h['docs'])))
+    return out + [(h['docs'], h['ops'], h['view']) for h in hist], st.hist
+
+def readonly_stats(cases, impl_lines, H):
+    """evidence: calls on the read-only maps by result class, receiver kind and map; how many left the dump unchanged"""
+    def cnt(k, n=1): H[k] = H.get(k, 0) + n
+    for (docs, ops, view), il in zip(cases, impl_lines):
+        recs = il.split(' | ')
+        for i in range(1, len(recs)):
+            if i - 1 < len(ops) and ops[i - 1][0] in RO_OPS:
+                op = ops[i - 1]
+                head, _, dump = recs[i].partition(' # ')
+                before = recs[i - 1].partition(' # ')[2]
+                res = head.split(' ')[0]
+                cnt('readonly:calls'); cnt('readonly:' + op[0] + ':' + res)
+                if dump != '-' and before != '-':
+                    cnt('readonly:dump-unchanged' if dump == before else 'readonly:DUMP-CHANGED')
+
 # ------------------------------------------------------------------ matrix and exhaustive short histories
 RICH = '<!DOCTYPE r [<!ENTITY e "v">]><!--h--><r k="v"><a x="1"><b>t<i/></b>s</a><!--m--><c/>w<![CDATA[d]]><?pi z?>&e;&#65;</r><!--f-->'
 RICH2 = '<q><z/>y</q>'
@@ -899,6 +1022,8 @@ def ddmin(ops, fails):
 
 HANDLE_FIELDS = {'AC': (1, 2), 'IB': (1, 2, 3), 'RC': (1, 2, 3), 'RM': (1, 2), 'SAN': (1, 2), 'RAN': (1, 2), 'NS': (1, 2)}
 
+HANDLE_FIELDS.update({'ES': (1, 2), 'ESI': (1, 2), 'TS': (1, 2), 'TSI': (1, 2), 'ER': (1,), 'TR': (1,)})
+
 def drop_op(docs, ops, view, k):
     """history without op k, handle indices of the later ops renumbered when op k had put new
     handles into the table; None when a later op refers to one of those handles"""
@@ -962,7 +1087,7 @@ def source_hash():
     h = hashlib.sha256()
     for f in ('checks/domlib.py', 'harness/src/domains/dom.rs', 'ocaml/domains/dom/dom.ml', 'coq/theories/Model/Store.v',
               'coq/theories/Model/DomOps.v', 'coq/theories/Model/StoreCheck.v', 'coq/theories/Model/StoreView.v',
-              'coq/theories/Model/XDoc.v', 'harness/src/domains/xpath.rs', 'coq/theories/Model/DomNormalize.v'):
+              'coq/theories/Model/XDoc.v', 'harness/src/domains/xpath.rs', 'coq/theories/Model/DomNormalize.v', 'coq/theories/Model/DomReadOnly.v'):
         try: h.update(open(os.path.join(lib.VERIF, f), 'rb').read())
         except OSError: pass
     return h.hexdigest()[:12]
@@ -1110,6 +1235,17 @@ def campaign(run, log=lib.log):
     for d, o, v in NH[:1] + NH[len(NZ_FIXED) * 2:len(NZ_FIXED) * 2 + 2]:
         summary['samples'].append({'kind': 'normalize history', 'documents': d, 'view': v, 'ops': [show_op(x) for x in o]})
     summary['times']['normalize'] = round(time.time() - t0, 1); t0 = time.time()
+    # (c'') histories with calls on the read-only maps of a document type (own random stream): model (step_ro) vs implementation,
+    # record by record -- result class and the FULL dump after the call (the model returns the world unchanged)
+    RH, rhist = readonly_histories(random.Random('readonly-%d' % run.seed), 1200 if thorough else 220, 24)
+    for k, v in rhist.items(): summary['hist'][k] = summary['hist'].get(k, 0) + v
+    lines = [mkcase(*c) for c in RH]
+    il = run_impl(lines); ml = run_model(lines, il)
+    analyse(RH, il, ml, summary, memo, 'readonly')
+    readonly_stats(RH, il, summary['hist'])
+    for d, o, v in RH[:1] + RH[len(RO_FIXED) * 2:len(RO_FIXED) * 2 + 2]:
+        summary['samples'].append({'kind': 'history with calls on the read-only maps of a document type', 'documents': d, 'view': v, 'ops': [show_op(x) for x in o]})
+    summary['times']['readonly'] = round(time.time() - t0, 1); t0 = time.time()
     # (d) the same histories with XPath query batches, implementation only, merged view, no dumps
     QH = [(d, with_queries(o, rng), 'm!9999') for d, o, v in H[:(len(H) if thorough else 300)]]
     QH += [(d, with_queries(o[:12], rng, dense=True), 'm!9999') for d, o, v in H[:(len(H) if thorough else 400)]]
